@@ -51,7 +51,7 @@ pub fn c13<E: ShGlue>(ctx: &mut Ctx) {
                         if k == 0 && interesting {
                             ctx.nontrivial(format!("{}/is/{}/{}", spec.name, i, j).as_bytes());
                         }
-                        let want = i == j && !vi.disabled();
+                        let want = i == j && !vi.disabled() && !vj.disabled();
                         if b != want {
                             ctx.fail("is-predicate", input.clone(), format!("{}", want), format!("{}", b));
                         }
